@@ -72,7 +72,7 @@ func construct(op Op) (s col.StackLike[int], m model, out rt.Outcome) {
 			}
 			s = C.MakeFromSequence(src)
 			m = model{vals: vals, cap: -1}
-			guardSrc, guardDump = src, dump.Dump(src)
+			guardSrc, guardDump = src, common.View(src)
 		}
 	})
 	return
@@ -205,10 +205,12 @@ func exec(r *engine.Rec, name string) func(path []Op, op Op) seqx.Step {
 			if !mustPanic {
 				return viol(op.K+full+" panics on a valid call", o.Value)
 			}
-			if before != after {
-				return viol(op.K+full+" panics but changes the stack", before+"\n"+after)
+			// "leave the stack unchanged": what a caller can observe, not the private representation
+			if !eq(s.AsArray(), m.vals) || s.GetSize() != len(m.vals) || int(s.GetCapacity()) != m.cap {
+				return viol(op.K+full+" panics but changes the stack", fmt.Sprintf("before %v cap %d after %v cap %d", m.vals, m.cap, s.AsArray(), s.GetCapacity()))
 			}
-			return seqx.Step{Key: after, Size: len(m.vals)}
+			// private state that differs without being observable yet is a new state of the search
+			return seqx.Step{Key: gkey() + after, Size: len(m.vals), Expand: before != after}
 		}
 		r.Outcome("return")
 		if mustPanic {
@@ -230,14 +232,8 @@ func exec(r *engine.Rec, name string) func(path []Op, op Op) seqx.Step {
 		if s.GetSize() > int(s.GetCapacity()) {
 			return viol("size exceeds capacity after "+op.K, fmt.Sprint(s.GetSize(), s.GetCapacity()))
 		}
-		if guardSrc != nil && dump.Dump(guardSrc) != guardDump {
+		if guardSrc != nil && common.View(guardSrc) != guardDump {
 			return viol(op.K+" on a stack built from another stack changes that other stack (shared storage)", fmt.Sprintf("source now %v", guardSrc.AsArray()))
-		}
-		switch op.K {
-		case "AsArray", "Iterate", "GetSize", "IsEmpty", "GetCapacity":
-			if before != after {
-				return viol(op.K+" (a query) changes the private state", before+"\n"+after)
-			}
 		}
 		if len(r.Samples) < 2 && len(path) > 2 {
 			r.Sample(map[string]any{"path": fmt.Sprintf("%+v", path), "op": fmt.Sprintf("%+v", op), "stack": fmt.Sprint(nm.vals)})
